@@ -595,4 +595,29 @@ def preflight(tier):
     empty = ET.XML(ET.tounicode(realE("r", realE("v", ""))))[0].text
     out.append(("lxml stub: text contract", not bad and empty is None,
                 "%d code points x 3 contexts; disagreements: %s" % (len(cands), [hex(c) for c in bad[:8]])))
+    # the same contract through the repository's own calls: a concrete corpus document written by the real
+    # XMLWriter.__str__ and parsed by the real reader's parser must be the tree the stubbed pipeline produces
+    import datetime as dt
+    import odml
+    from odml.tools import xmlparser
+    doc = odml.Document(author=" a\x85b ", version="<&>", date=dt.date(2020, 1, 2))
+    sec = odml.Section(name="s\r", type="t", parent=doc, definition="x\ny", sec_cardinality=(1, 2))
+    odml.Property(name="texts", values=["a,b", "\"q\"", "x\ny", "[z]", "\u00e9", " pad "], parent=sec, unit="mV", uncertainty=0)
+    odml.Property(name="one", values=["[a,b]"], parent=sec)
+    odml.Property(name="numbers", values=[0, -3, 10 ** 20], parent=sec, val_cardinality=(None, 9))
+    odml.Property(name="tuples", values=["(a;b)"], dtype="2-tuple", parent=sec)
+    real_root = ET.XML(str(xmlparser.XMLWriter(doc)), xmlparser.XMLReader().parser)
+    saved = (xmlparser.csv, xmlparser.E)
+    xmlparser.csv, xmlparser.E = csvmodel, lxmlstub.E
+    try:
+        stub_root = lxmlstub.serialise_and_parse(xmlparser.XMLWriter.save_element(doc))
+    finally:
+        xmlparser.csv, xmlparser.E = saved
+
+    def flat(elem, real):
+        kids = [c for c in elem if not real or isinstance(c.tag, str)]
+        text = elem.text if not kids else None
+        return (elem.tag, text, sorted(elem.attrib.items()), [flat(c, real) for c in kids])
+    out.append(("stub pipeline == real XMLWriter.__str__ + parser on a corpus document",
+                flat(real_root, True) == flat(stub_root, False), "4 Properties, text with , \" [ ] newline CR NEL"))
     return out
